@@ -148,6 +148,16 @@ def judge_kernel(ctx, kernel, args, res, exc, origin):
                       kernel=kernel)
         return
     got = ops.result_values(res)
+    # elements whose inputs are not finite (dead pixels) are not judged; they must not affect the others
+    valid = np.ones(np.shape(got), dtype=bool)
+    for n in names:
+        valid &= np.isfinite(np.asarray(a_si[n], dtype=np.float64))
+    if not np.all(valid):
+        ctx.count('elements with non-finite inputs (not judged)', int(valid.size - np.count_nonzero(valid)))
+        if not np.any(valid):
+            return
+        got = np.asarray(got)[valid]
+        exp_out = exp_out[valid]
     if cls32:
         # out of the float32 domain (reference not a normal float32): not judged
         fin = np.isfinite(exp_out.astype(np.float64))
@@ -314,11 +324,15 @@ def gen_case(rng, ctx, kernel=None):
                 # a compact detector: per-pixel values that agree to 1e-9..1e-6 relative but are not equal
                 s = s[0] * (1 + 10.0 ** rng.uniform(-9, -6) * rng.uniform(0, 1, size=n_el))
                 ctx.hit('nearly uniform per-pixel geometry')
+            if s is not None and not is_data and n_el > 2 and dt != 'int64' and rng.random() < 0.1:
+                s = np.array(s, dtype=float)
+                s[int(rng.integers(0, n_el))] = np.nan  # a pixel without geometry
+                ctx.hit('dead pixel (NaN geometry)')
             if s is None:
                 v = rng.integers(1, 2**26, size=n_el).astype(float)
             else:
                 v = _as_unit(s, unit)
-                mags.append(int(np.floor(np.log10(np.median(s)) / 3)))
+                mags.append(int(np.floor(np.log10(np.nanmedian(s)) / 3)))
         if shape_cls == 'binned' and is_data:
             sizes = rng.integers(0, 12, size=npix)
             if rng.random() < 0.3:
@@ -488,7 +502,7 @@ def requirements(tier):
     return {'events': ev,
             'forced': ['two_theta<1e-9', 'two_theta within 1e-12 of pi', 'two_theta == pi',
                        'integer geometry operand', 'binned operand is a slice of a larger one',
-                       'nearly uniform per-pixel geometry']}
+                       'nearly uniform per-pixel geometry', 'dead pixel (NaN geometry)']}
 
 
 def run(shard, ctx):
